@@ -39,7 +39,48 @@ var ReservedIdents = []string{"AdditionalProperties", "Plain", "Value"}
 
 // Run executes the generator abstractly on the family member under cfg and
 // returns every world (one per decision script). complete=false: budget exhausted.
+// aliasFromFacts: atoms a world decided to be the same string share a placeholder.
+func aliasFromFacts(facts map[string]int) map[int]int {
+	alias := map[int]int{}
+	find := func(x int) int {
+		for alias[x] != 0 && alias[x] != x {
+			x = alias[x]
+		}
+		return x
+	}
+	for k, v := range facts {
+		if v != 1 || !strings.HasPrefix(k, "streq:") {
+			continue
+		}
+		var a, b int
+		if n, _ := fmt.Sscanf(k, "streq:\x00%d|\x00==\x00%d|\x00", &a, &b); n == 2 {
+			ra, rb := find(a), find(b)
+			if ra != rb {
+				if ra > rb {
+					ra, rb = rb, ra
+				}
+				alias[rb] = ra
+				alias[ra] = ra
+			}
+		}
+	}
+	out := map[int]int{}
+	for x := range alias {
+		out[x] = find(x)
+	}
+	return out
+}
+
+// RunOpt carries optional settings of an abstract run.
+type RunOpt struct {
+	ForkStringEquality bool
+}
+
 func Run(p *core.Program, cfg gen.Config, root *Spec, budget int, facts map[string]int) (worlds []*World, complete bool) {
+	return RunWith(p, cfg, root, budget, facts, RunOpt{})
+}
+
+func RunWith(p *core.Program, cfg gen.Config, root *Spec, budget int, facts map[string]int, opt RunOpt) (worlds []*World, complete bool) {
 	type out struct {
 		spec   *Spec
 		files  map[string]absint.Str
@@ -51,6 +92,7 @@ func Run(p *core.Program, cfg gen.Config, root *Spec, budget int, facts map[stri
 		for k, v := range facts {
 			m.Facts[k] = v
 		}
+		m.ForkStringEquality = opt.ForkStringEquality
 		m.FactPrefixDefault = map[string]int{}
 		// identifiers are assumed different from the generator's reserved literals
 		for _, r := range ReservedIdents {
@@ -88,8 +130,9 @@ func Run(p *core.Program, cfg gen.Config, root *Spec, budget int, facts map[stri
 			w.Spec, w.GenErr, w.Warnings = o.spec, o.genErr, o.warn
 			w.Files = map[string]*skel.File{}
 			w.Models = map[string]*FileModel{}
+			alias := aliasFromFacts(w.Facts)
 			for name, s := range o.files {
-				f := skel.Parse(skel.Render(s))
+				f := skel.Parse(skel.RenderAlias(s, alias))
 				w.Files[name] = f
 				if f.Err == nil {
 					w.Models[name] = Model(f)
